@@ -49,7 +49,7 @@ claimed["C19"] = dict(
    level="fault_enumeration",
    text="The solver really saves to and loads from files while the simulator plays the disk and the descriptor table. Fault-free configuration: stored P (upper triangle), q, A, b (capped), cones equal the user's data (exactly with equilibration off, <= 64 ulp otherwise), settings identical incl. infinite time_limit, a settings argument overrides, and the loaded problem solves to the same result (bitwise with equilibration off). Fault configurations: every enumerated disk fault (lost write, truncation, bit flip, hostile-byte substitution, zeroed sector, duplicated tail, stale tail) and descriptor fault (/dev/full, read-only, write-only, directory, handle not rewound, pipe delivering 1-7 byte reads) must end in Err - or, for byte corruptions that leave a well-formed document, in Ok with a usable solver carrying exactly the stored value - and never in a panic or abort. Thorough tier enumerates every truncation offset and every bit of every byte of each generated file.",
    design_ref="DESIGN.md §4 C19, §2.4",
-   note="EINTR on the JSON handles is not injected (concrete std::fs::File). When a corruption changes a settings value the loaded solver is constructed but not solved (arbitrary settings are covered by no property). The saved solver may have been solved, updated in place and had public settings edited before saving; a second-generation save of the loaded solver must not drift. With equilibration on, a verdict disagreement is judged only when both verdicts are independently backed by the returned vectors.",
+   note="EINTR on the JSON handles is not injected (concrete std::fs::File). When a corruption changes a settings value the loaded solver is constructed but not solved (arbitrary settings are covered by no property). The saved solver may have been solved, updated in place and had public settings edited before saving; a second-generation save of the loaded solver must not drift. Every public settings field is varied by the generator (incl. max_threads and the infeasibility / KT-ratio tolerances that gen_settings leaves alone) and compared through the Debug rendering of the whole struct. With equilibration on, a verdict disagreement is judged only when both verdicts are independently backed by the returned vectors.",
    technique="deterministic simulation: enumerated disk/descriptor fault injection between save and load")
 
 na = {
